@@ -46,7 +46,7 @@ KINDS = {
             "wrong-pages", "panic", "harness", "receiver-blocked", "timeout-early", "stalled", "event-lost"},
     "C16": {"not-done-after-close", "no-error-after-close", "registered-after-close", "done-vs-closed", "err-without-done", "accepted-after-close",
             "panic", "goroutine-leak", "close-hangs", "receiver-blocked", "send-blocked", "worker-crash", "timeout-missing", "timeout-early", "harness",
-            "stalled", "accept-blocked"},
+            "stalled", "accept-blocked", "state-wrong"},
 }
 
 
@@ -223,6 +223,9 @@ def standard(run, prop, which, extra_subs=()):
             if rc != 0:
                 broken.append("harness inflight %s failed rc=%s (a crash of the worker is a finding: see stderr): %s" % (sub, rc, err[-1200:]))
             for r in recs:
+                if r.get("kind") == "observation":
+                    # characterised, not judged: goes into the evidence notes, never into a verdict
+                    run.note("observed, not judged (harness %s): %s: %s" % (sub, r.get("name"), r.get("observed")))
                 if r.get("kind") == "pred":
                     run.coverage.setdefault("runtime_checks_exercised_not_proved", []).append(
                         {k: r[k] for k in ("name", "checked", "distinct") if k in r})
